@@ -3,13 +3,15 @@ from __future__ import annotations
 
 import io
 
-from .. import gen, pj, refdec, wire, workloads
+from .. import gen, pj, refdec, sources, wire, workloads
 from .. import terms as T
 
 ID = "C10"
 LEVEL = "fault_enumeration"
 RULE = ("valid delimited streams (2-30 frames; written by pyjelly and by the reference producer) are cut at EVERY byte offset "
-        "0..len and each prefix is parsed with parse_jelly_flat of both integrations (parse_jelly_grouped too in thorough). "
+        "0..len and each prefix is parsed with parse_jelly_flat of both integrations (parse_jelly_grouped too in thorough), from a "
+        "BytesIO and from one non-seekable source per cut (raw, raw one byte at a time, buffered; each reports end-of-file after the "
+        "cut and trips a logical-step guard if the parser polls it 2000 times at end-of-file). "
         "With S the full event list and F(k) the events of the frames lying wholly inside the first k bytes, the yielded list "
         "Y must satisfy Y == S[:len(Y)] and len(Y) >= len(F(k)), followed by normal end or an Exception. Non-trivial: cuts "
         "inside a length varint, inside an entry row, between an entry and its use, or exactly on a frame boundary "
@@ -21,7 +23,7 @@ ASSUMPTIONS = [
 ANCHORS = ["pyjelly/parse/ioutils.py", "pyjelly/parse/decode.py", "pyjelly/integrations/generic/parse.py",
            "pyjelly/integrations/rdflib/parse.py"]
 MARKERS = {"frame-iterator": ("pyjelly/parse/ioutils.py", r"while frame := parse_length_prefixed")}
-REQUIRED_OBSERVED = ["cuts-judged", "cut:inside-length-varint", "cut:on-frame-boundary", "cut:inside-entry-row"]
+REQUIRED_OBSERVED = ["cuts-judged", "cut-source:raw-nonseekable", "cut-source:buffered-nonseekable", "cut:inside-length-varint", "cut:on-frame-boundary", "cut:inside-entry-row"]
 MIN_NONTRIVIAL = 100
 MANIFEST = {
     "category": "fault_enumeration",
@@ -58,10 +60,34 @@ def classify_cut(k: int, frames: list, data: bytes) -> str:
     return "other"
 
 
-def judge_cut(integ: str, entry: str, data: bytes, k: int, S: list, complete_before: int):
+SOURCES = ["bytesio", "raw-nonseekable", "raw-nonseekable-1", "buffered-nonseekable", "buffered-nonseekable-dribble"]
+
+
+def cut_source(src: str, prefix: bytes):
+    """What a dropped connection / crashed producer looks like to the parser, per source type (end-of-file after the cut).
+    The doubles raise sources.EOFSpin after 2000 reads answered with end-of-file: a reader that keeps polling a dead
+    source is a hang (decided on logical steps, not on wall-clock time)."""
+    if src == "bytesio":
+        return io.BytesIO(prefix)
+    if src == "raw-nonseekable":
+        return sources.SpinGuardRaw(prefix, [1 << 20])
+    if src == "raw-nonseekable-1":
+        return sources.SpinGuardRaw(prefix, [1])
+    if src == "buffered-nonseekable":
+        return io.BufferedReader(sources.SpinGuardRaw(prefix, [7, 1 << 20]))
+    if src == "buffered-nonseekable-dribble":
+        return io.BufferedReader(sources.SpinGuardRaw(prefix, [2, 5]))
+    raise ValueError(src)
+
+
+def judge_cut(integ: str, entry: str, data: bytes, k: int, S: list, complete_before: int, src: str = "bytesio"):
     """-> witness or None"""
     if entry == "flat":
-        got, exc = pj.run_flat_collect(integ, io.BytesIO(data[:k]))
+        try:
+            got, exc = pj.run_flat_collect(integ, cut_source(src, data[:k]))
+        except sources.EOFSpin as spin:
+            return {"clause": "spins-at-end-of-input", "source": src,
+                    "summary": f"{integ}:{entry} cut at {k} supplied as {src}: {spin} (neither ends nor raises)"}
         Y = T.norm_events(got)
     else:
         Y = []
@@ -119,12 +145,16 @@ def run_stream(ctx, vs, integs, entries):
         for integ in integs:
             for entry in entries:
                 cb = complete if entry == "flat" else len([e for e in res.events[:complete] if e[0] == "stmt"])
-                w = judge_cut(integ, entry, data, k, S, cb)
-                ctx.observe("cuts-judged")
-                if w is not None:
-                    w.update({"bytes": data.hex(), "cut": k, "cut_kind": kind, "integration": integ, "entry": entry,
-                              "producer": vs["producer"], "mode": vs["mode"]})
-                    ctx.violation(w)
+                # the in-memory buffer always; one other source type per (stream, cut), rotating
+                srcs = ["bytesio"] + ([SOURCES[1 + (k + len(data)) % (len(SOURCES) - 1)]] if entry == "flat" else [])
+                for src in srcs:
+                    w = judge_cut(integ, entry, data, k, S, cb, src)
+                    ctx.observe("cuts-judged")
+                    ctx.observe(f"cut-source:{src}")
+                    if w is not None:
+                        w.update({"bytes": data.hex(), "cut": k, "cut_kind": kind, "integration": integ, "entry": entry,
+                                  "producer": vs["producer"], "mode": vs["mode"], "source": src})
+                        ctx.violation(w)
         nt = kind in ("inside-length-varint", "inside-entry-row", "between-entry-and-use", "on-frame-boundary")
         ctx.case((h, k), nt, sample={"stream_bytes": len(data), "frames": len(frames), "cut": k, "cut_kind": kind,
                                      "events_in_complete_frames": complete, "producer": vs["producer"]} if nt else None)
@@ -159,7 +189,7 @@ def replay(w: dict):
         if fr["span"][1] <= k:
             complete = tot
     cb = complete if w["entry"] == "flat" else len([e for e in res.events[:complete] if e[0] == "stmt"])
-    return judge_cut(w["integration"], w["entry"], data, k, S, cb)
+    return judge_cut(w["integration"], w["entry"], data, k, S, cb, w.get("source", "bytesio"))
 
 
 def classify(w: dict):
